@@ -8,18 +8,19 @@ Open Scope Z_scope.
 Definition small (n : nat) (g' : GraphP) : bool := (gdepth g' <=? n)%nat || is_empty_graph g'.
 
 (* a nested graph: deserialized with fuel S n, serialized with any fuel' >= S n *)
-Lemma nested_rt n fuel' vs outer' g' :
-  (S n <= fuel')%nat -> Forall scope_ok outer' -> (forall k, In k vs -> visible_in outer' k) ->
-  wf_graph true vs g' = true -> small n g' = true ->
+Lemma nested_rt n fuel' allow_dev irv vs outer' g' :
+  (S n <= fuel')%nat -> irv_allows allow_dev irv ->
+  Forall scope_ok outer' -> (forall k, In k vs -> visible_in outer' k) ->
+  wf_graph allow_dev vs g' = true -> small n g' = true ->
   exists ig, deser_graph (S n) outer' g' = Ok ig
-             /\ exists g'', ser_graph fuel' None ig = Ok g'' /\ norm_graph g'' = norm_graph g'.
+             /\ exists g'', ser_graph fuel' irv ig = Ok g'' /\ norm_graph g'' = norm_graph g'.
 Proof.
-  intros Hf Hs Hv Hw Hsm. unfold small in Hsm. apply orb_prop in Hsm. destruct Hsm as [Hd|He].
+  intros Hf Hirv Hs Hv Hw Hsm. unfold small in Hsm. apply orb_prop in Hsm. destruct Hsm as [Hd|He].
   - apply Nat.leb_le in Hd.
-    destruct (graph_roundtrip_fuel n g' true vs outer' None Hd Hw Hs Hv (fun _ => I)) as (ig & H1 & q & H2 & H3).
+    destruct (graph_roundtrip_fuel n g' allow_dev vs outer' irv Hd Hw Hs Hv Hirv) as (ig & H1 & q & H2 & H3).
     exists ig. split; [exact H1|]. exists q. split; [|exact H3].
     pose proof (deser_graph_depth _ _ _ _ H1) as Hdep.
-    rewrite (ser_graph_fuel fuel' None ig) by lia. rewrite <- (ser_graph_fuel (S n) None ig) by lia. exact H2.
+    rewrite (ser_graph_fuel fuel' irv ig) by lia. rewrite <- (ser_graph_fuel (S n) irv ig) by lia. exact H2.
   - apply is_empty_graph_eq in He. subst g'. destruct fuel' as [|f']; [lia|].
     eexists. split; [reflexivity|]. eexists. split; reflexivity.
 Qed.
